@@ -391,8 +391,18 @@ def fuzz_engine(pid, tier, seed, exe, workdir, V):
 
     def one(i):
         out = os.path.join(workdir, 'fuzz_%d.txt' % i)
-        _sh([exe, '-fuzz19', '-seed', str(seed), '-first', str(i * n), '-n', str(n), '-out', out], timeout=3000)
-        return open(out).read() if os.path.exists(out) else ''
+        r = _sh([exe, '-fuzz19', '-seed', str(seed), '-first', str(i * n), '-n', str(n), '-out', out], timeout=3000)
+        txt = open(out).read() if os.path.exists(out) else ''
+        if r.returncode != 0:
+            # the process died in a case (unrecovered panic in a goroutine of the library): that case is the failing input
+            cases = [l for l in txt.splitlines() if l.startswith('case ')]
+            death = [l for l in (r.stdout or '').splitlines() if l.startswith(('panic:', 'fatal error:'))]
+            where = [l.strip() for l in (r.stdout or '').splitlines() if 'sod.' in l and '(' in l and not l.startswith('panic')]
+            if cases:
+                k = cases[-1].split()[1]
+                txt += '\n! C19 the process died in fuzz case %s (replay: hz -fuzz19 -seed %d -first %s -n 1): %s [%s]\n' % (
+                    k, seed, k, (death or ['exit %d' % r.returncode])[0][:300], (where or [''])[0][:200])
+        return txt
     with concurrent.futures.ThreadPoolExecutor(max_workers=16) as ex:
         for txt in ex.map(one, range(16)):
             for l in txt.splitlines():
